@@ -32,7 +32,9 @@ def run(v, tier, seed, replay=None):
             # copy (2x), the stream holds < buffer (0x20000 for a reading File) + 2 containers + the one in flight, the queue
             # 10 objects + the one being decoded; 200 kB for thread stacks' heap use, iostream buffers and allocator slack.
             # The bound does not depend on the number of objects n.
-            allowed = 2 * (0x20000 + 3 * cs) + 12 * ob + 200000
+            # plus, per container held, the LogContainer object itself, its two vectors' headers and the shared_ptr block
+            # (about 400 bytes): with tiny containers the 128 KiB of payload the buffer admits are thousands of containers
+            allowed = 2 * (0x20000 + 3 * cs) + 12 * ob + 200000 + (0x20000 // cs + 4) * 400
             if p > allowed:
                 nbad += 1
                 v.violation('C12:bound', 'peak live heap while reading %d objects is %d bytes, above the bound %d that holds for any file length ("%s": objects of %d bytes, containers of %d)' % (n, p, allowed, name, ob, cs),
